@@ -109,7 +109,7 @@ def check_step(ctx, info, doc, step, res_doc, origin, sink=None):
     # where no range ends at the start of a range with a non-empty old side (deleted_right_needs_noTouch)
     touch_free = all(ranges[j + 1] <= 0 or ranges[i] + ranges[i + 1] != ranges[j]
                      for i in range(0, len(ranges), 3) for j in range(0, len(ranges), 3))
-    for a in (-1, 1):
+    for a in ((-1, 1) if ranges else ()):     # an empty map never reports anything (markup_map_both_sides)
         if a > 0 and not touch_free:
             ctx.count("deleted_flag_right_touching_ranges_skipped")
             continue
@@ -293,8 +293,8 @@ def run(ctx):
                            sink=(reqs, metas))
         maps = [list(x.ranges) for x in tr.mapping.maps]
         exp = [list(s.get_map().ranges) for s in tr.steps]
-        if maps != exp or tr.mapping.from_ != 0 or tr.mapping.to != len(tr.steps):
-            ctx.violation("transform-mapping", "Transform.mapping is not the list of the recorded steps' maps",
+        if maps != exp or tr.mapping.from_ != 0 or tr.mapping.to != len(tr.steps) or tr.mapping.mirror:
+            ctx.violation("transform-mapping", "Transform.mapping is not the list of the recorded steps' maps (from 0 to the end, no mirrors)",
                           {"schema": info.name, "doc": d.to_json(), "steps": [s.to_json() for s in tr.steps], "maps": maps})
         check_history(ctx, info, d, tr, "operations", reqs, metas)
         # a history of random primitive steps (each generated against the current document, recorded iff it applies)
